@@ -11,6 +11,7 @@ def main():
     ap.add_argument("--jobs", type=int, default=None)
     a = ap.parse_args()
     seed = int(os.environ.get("VERIF_SEED", "0"))
+    os.environ["VERIF_TIER"] = a.tier
     from . import runner
 
     levels = __import__("json").load(open(os.path.join(runner.VERIF, "levels.json")))
